@@ -148,7 +148,26 @@ void harness(void)
 	MPT_STRUCT(node) *na, *nb;
 	size_t la, lb;
 
+#ifdef MOVE_SHAPE
+	/* concrete family for the merge: nd[0] = head of the target list, nd[1] = head of the
+	 * source list with child nd[2]; nd[3] is (symbolic) second child of nd[1], child of the
+	 * target nd[0], or second element of the source list.  Names stay symbolic. */
+	{
+	size_t i, alt = V_IN_RANGE("alt", 0, 2);
+	for (i = 0; i < NN; i++) {
+		nd[i]._meta = 0; nd[i].next = nd[i].prev = nd[i].parent = nd[i].children = 0;
+		mpt_identifier_init(&nd[i].ident, sizeof(nd[i].ident));
+	}
+	nd[1].children = &nd[2]; nd[2].parent = &nd[1];
+	if (alt == 0) { nd[2].next = &nd[3]; nd[3].prev = &nd[2]; nd[3].parent = &nd[1]; }
+	else if (alt == 1) { nd[0].children = &nd[3]; nd[3].parent = &nd[0]; }
+	else { nd[1].next = &nd[3]; nd[3].prev = &nd[1]; }
+	V_ASSUME(a == 0 && b == 1);
+	V_ASSERT(wf_links(), "harness: concrete shape is well formed");
+	}
+#else
 	shape();
+#endif
 	V_ASSERT(wf_acyclic(), "harness: rank witnesses imply bounded walks");
 	na = &nd[a]; nb = &nd[b];
 	la = list_len(na); lb = list_len(nb);
@@ -266,7 +285,18 @@ void harness(void)
 	{ const MPT_STRUCT(node) *p = nb; size_t k; for (k = 0; k < NN && p; k++) { V_ASSUME(!in_list_of(p, na)); p = p->parent; } }
 	names();
 	(void) before; (void) after; (void) i;
-	mpt_node_move(&from, na);
+	{
+	size_t moved = mpt_node_move(&from, na);
+	size_t cnt = 0;
+	/* every node ends either in the target forest (root list of a) or stays below the source list */
+	for (i = 0; i < NN; i++) {
+		const MPT_STRUCT(node) *p = &nd[i]; size_t k;
+		for (k = 0; k < NN && p->parent; k++) p = p->parent;
+		if (in_list_of(p, na)) cnt++;
+	}
+	V_ASSERT(cnt >= 1 + moved || moved == 0, "number of moved nodes does not exceed what arrived in the target forest");
+	/* no two siblings of the target list share a name the move could have merged: checked through locate */
+	}
 	}
 #else
 # error OP
